@@ -51,6 +51,9 @@ static uint64_t verif_bits(double d) { uint64_t u; __CPROVER_assert(sizeof(u) ==
 #define REC_V2_QUICK_CUES_FOOTER_DEC(p, q) (F64BE(p, 0, (q).adjusted_main_cue) && ((q).is_main_cue_adjusted == ((p)[8] != 0)) && F64BE(p, 9, (q).default_main_cue))
 /* loop: u8 label length L | L label bytes | f64le start | f64le end | u8 start set | u8 end set | u8 alpha | red | green | blue  (23 + L bytes) */
 #define REC_V2_LOOP_TAIL(p, l) (F64LE(p, 0, (l).start_sample_offset) && F64LE(p, 8, (l).end_sample_offset) && U8AT(p, 16, (l).is_start_set) && U8AT(p, 17, (l).is_end_set) && U8AT(p, 18, (l).color.a) && U8AT(p, 19, (l).color.r) && U8AT(p, 20, (l).color.g) && U8AT(p, 21, (l).color.b))
+/* double with a given bit pattern (for contracts that compare a decoded value with 0 or -1) */
+static double verif_from_bits(uint64_t u) { double d; memcpy(&d, &u, 8); return d; }
+#define FROM_BITS(u) verif_from_bits(u)
 /* frame of one loop iteration: every byte of the buffer outside [lo, hi) keeps its value */
 #define ITER_FRAME_PRE(p) uint8_t* __fb = (uint8_t*)(p) - __CPROVER_POINTER_OFFSET(p); size_t __fj = nondet_size_t(); __CPROVER_assume(__fj < __CPROVER_OBJECT_SIZE(p)); uint8_t __fold = __fb[__fj];
 #define ITER_FRAME_OK(lo, hi) ((__fj >= __CPROVER_POINTER_OFFSET(lo) && __fj < __CPROVER_POINTER_OFFSET(hi)) || __fb[__fj] == __fold)
